@@ -19,7 +19,8 @@ import sys
 WIDTH = {'u8': 8, 'u16': 16, 'u32': 32, 'u64': 64, 'u128': 128, 'usize': 64,
          'i8': 8,    # i8 only as a two's-complement byte: `-`, `==` and literal patterns (cmp's -1/0/1)
          # the other signed types only as two's-complement bit patterns: casts from unsigned words, `<<`, `|`, `MAX`, `MIN`
-         'i16': 16, 'i32': 32, 'i64': 64, 'i128': 128, 'isize': 64}
+         'i16': 16, 'i32': 32, 'i64': 64, 'i128': 128, 'isize': 64,
+         'char': 32}      # a `char` is its code point (`u64::from(c)`, literal and range patterns)
 SIGNED = ('i8', 'i16', 'i32', 'i64', 'i128', 'isize')
 
 
@@ -29,6 +30,23 @@ class TranslateError(Exception):
 
 FFMT = {'f64': 'Ruint.Float.b64', 'f32': 'Ruint.Float.b32'}      # float formats of the IEEE-754 model (`Model/Float.lean`)
 
+
+
+def char_code(tok):
+    """code point of a Rust char literal token like `'a'`, `'\\n'`, `'\\r'`, `'\\u{212a}'`"""
+    body = tok[1:-1]
+    esc = {'\\n': 10, '\\r': 13, '\\t': 9, '\\\\': 92, "\\'": 39, '\\"': 34, '\\0': 0}
+    if body in esc:
+        return esc[body]
+    m = re.fullmatch(r'\\u\{([0-9a-fA-F_]+)\}', body)
+    if m:
+        return int(m.group(1).replace('_', ''), 16)
+    m = re.fullmatch(r'\\x([0-9a-fA-F]{2})', body)
+    if m:
+        return int(m.group(1), 16)
+    if len(body) == 1:
+        return ord(body)
+    raise TranslateError('char literal %s' % tok)
 
 # ------------------------------------------------------------------------------------------------
 # tokenizer
@@ -162,6 +180,8 @@ class Parser:
             t = self.parse_type()
             if t == 'slice' and m:
                 return 'mutslice'           # `&mut [u64]`: returned (updated) next to the function's own result
+            if t == 'str':
+                return 'slice'              # `&str`: the sequence of its characters (code points)
             return t
         kind, v = self.next()
         if v == 'Wrapping':
@@ -519,6 +539,16 @@ class Parser:
                 self.accept(',')
             return ('mtuple', ps)
         kind, v = self.next()
+        if kind == 'str' and v.startswith("'"):
+            lo = char_code(v)
+            if self.accept('..='):
+                k2, v2 = self.next()
+                if not (k2 == 'str' and v2.startswith("'")):
+                    raise TranslateError('unsupported range pattern')
+                return ('mrange', lo, char_code(v2))
+            return ('mlit', lo)
+        if kind == 'str':
+            return ('mstr', v)
         if v == '-' and self.peek()[0] == 'num':
             return ('mlit', -int(self.next()[1].replace('_', ''), 0))
         if v == '_':
@@ -613,6 +643,8 @@ class Parser:
 
     def parse_primary(self):
         kind, v = self.next()
+        if kind == 'str' and v.startswith("'"):
+            return ('lit', char_code(v), 'char')            # a `char` is its code point
         if kind == 'str':
             return ('str', v)
         if kind == 'flt':
@@ -1040,6 +1072,9 @@ class Emitter:
                 v += 2 ** self.w(ty)           # two's complement at the scrutinee's width
             conds.append('(%s == %d)' % (term, v))
             return
+        if pat[0] == 'mrange':
+            conds.append('(decide (%d ≤ %s) && decide (%s ≤ %d))' % (pat[1], term, term, pat[2]))
+            return
         if pat[0] == 'mctor' and ty == 'Ordering' and pat[1][0] == 'Ordering' and not pat[2]:
             conds.append('(%s == Ordering.%s)' % (term, {'Less': 'lt', 'Equal': 'eq', 'Greater': 'gt'}[pat[1][1]]))
             return
@@ -1451,21 +1486,37 @@ class Emitter:
         one (the variants must agree on its type); the value of the enum is (variant index, slot 1, …, padded with defaults)"""
         name, targs = et[1], et[2]
         tp, fts = self.enum_fields[name]
-        n = max([len(f) for f in fts] + [0])
+        flat = [self.enum_variant_slots(et, vi) for vi in range(len(fts))]
+        n = max([len(f) for f in flat] + [0])
         slots = []
         for k in range(n):
             ts = []
-            for f in fts:
-                if len(f) > k:
-                    t = targs[0] if (tp and f[k] == tp and targs) else self.ty(Parser(tokenize(f[k])).parse_type())
-                    if t not in ts:
-                        ts.append(t)
+            for f in flat:
+                if len(f) > k and f[k] not in ts:
+                    ts.append(f[k])
             if len(ts) != 1:
-                raise TranslateError('variants of %s disagree on the type of field %d' % (name, k))
+                if all(isinstance(t, str) and t in WIDTH for t in ts):
+                    ts = ['u64']                 # words of different types share the slot (a `char`, a `u64`, a variant index)
+                else:
+                    raise TranslateError('variants of %s disagree on the type of field %d' % (name, k))
             slots.append(ts[0])
         if name == 'BaseConvertError' or not slots:
             slots = (slots + ['u64', 'u64'])[:max(2, len(slots))]
         return slots
+
+    def enum_variant_slots(self, et, vi):
+        """slot types of variant number `vi` of the enum type `et`: one per field, a field that is itself an enum is flattened
+        into (its variant index, its slots)"""
+        name, targs = et[1], et[2]
+        tp, fts = self.enum_fields[name]
+        out = []
+        for ft in fts[vi]:
+            t = targs[0] if (tp and ft == tp and targs) else self.ty(Parser(tokenize(ft)).parse_type())
+            if isinstance(t, tuple) and t and t[0] == 'enum':
+                out += ['u64'] + list(self.enum_slots(t))
+            else:
+                out.append(t)
+        return out
 
     def enum_value(self, path, args, env, exp=None):
         """`Enum::Variant` / `Enum::Variant(a, …)`: (variant index in declaration order, fields padded with defaults)"""
@@ -1484,8 +1535,16 @@ class Emitter:
             else:
                 et = ('enum', path[0], [])
         slots = self.enum_slots(et)
-        fs = [self.expr(a, env, slots[i])[0] for i, a in enumerate(args)]
-        for t in slots[len(args):]:
+        fs = []
+        for a in args:
+            sa_, ta_ = self.expr(a, env, slots[len(fs)] if len(fs) < len(slots) else None)
+            if isinstance(ta_, tuple) and ta_ and ta_[0] == 'enum':
+                # a field that is itself an enum value: flattened into (its variant index, its slots)
+                k_ = 1 + len(self.enum_slots(ta_))
+                fs += ['(%s)%s' % (sa_, '.2' * i_ + ('.1' if i_ < k_ - 1 else '')) for i_ in range(k_)]
+            else:
+                fs.append(sa_)
+        for t in slots[len(fs):]:
             fs.append('0' if (t == 'uint' and getattr(self, 'uint_mode', False) == 'value')
                       else '[]' if t in ('uint', 'slice', 'mutslice') else 'false' if t == 'bool' else '0')
         return '(' + ', '.join([str(idx)] + fs) + ')', et
@@ -1700,6 +1759,15 @@ class Emitter:
         if isinstance(tr, tuple) and tr[0] == 'option':
             if name == 'copied' and not args:
                 return sr, tr
+            if name == 'is_some' and not args:
+                return '((%s).isSome)' % sr, 'bool'
+            if name == 'is_none' and not args:
+                return '((%s).isNone)' % sr, 'bool'
+            if name == 'map_or' and len(args) == 2 and args[1] == ('path', ['Err']):
+                # `opt.map_or(d, Err)`: `Some(e)` is `Err(e)`, `None` is the default
+                rt_ = exp if isinstance(exp, tuple) and exp[0] == 'result' else self.inner_rt
+                sd, td = self.expr(args[0], env, rt_)
+                return '(match %s with\n  | some e_ => Except.error e_\n  | none => %s)' % (sr, sd), td
             if name == 'unwrap_or' and len(args) == 1:
                 sd, _ = self.expr(args[0], env, tr[1])
                 return '((%s).getD %s)' % (sr, sd), tr[1]
@@ -1958,6 +2026,9 @@ class Emitter:
                 return True       # a panic leaves the function from here: handled like an early return
             if s[0] in ('expr', 'expr_nosemi', 'tail') and s[1][0] == 'if':
                 if self.has_return(s[1][2]) or (s[1][3] and self.has_return(s[1][3])):
+                    return True
+            if s[0] in ('expr', 'expr_nosemi', 'tail') and s[1][0] == 'match':
+                if any(b_[0] == 'block' and self.has_return(b_) for _, b_ in s[1][2]):
                     return True
         return False
 
@@ -2370,6 +2441,24 @@ class Emitter:
                 body, tb = self.stmts(rest, env, exp, result)
                 return 'match %s with\n  | Except.error e_ => %s\n  | Except.ok %s => (\n  %s)' % (
                     so, self.wrap_ret('(Except.error e_)', env), lean_ident(s[1][1]), body), tb
+            if (isinstance(to, tuple) and to[0] == 'result' and not (isinstance(result, tuple) and result[0] == 'loop')
+                    and isinstance(self.inner_rt, tuple) and self.inner_rt[0] == 'result'
+                    and isinstance(to[2], tuple) and to[2][0] == 'enum'
+                    and isinstance(self.inner_rt[2], tuple) and self.inner_rt[2][0] == 'enum'):
+                # `let x = res?;` where the error is converted by `From<E> for E'`: E' must have exactly one variant whose only
+                # field is an `E` (the conversion the source's `impl From` performs: checked to exist in the item's file)
+                src_e, dst_e = to[2], self.inner_rt[2]
+                tp_, fts_ = self.enum_fields[dst_e[1]]
+                cands = [i for i, f in enumerate(fts_) if len(f) == 1 and f[0].strip() == src_e[1]]
+                if len(cands) == 1 and re.search(r'impl\s+From<%s>\s+for\s+%s\b' % (src_e[1], dst_e[1]), getattr(self, 'file_text', '')):
+                    k_ = 1 + len(self.enum_slots(src_e))
+                    comps = ['(e_)%s' % ('.2' * i_ + ('.1' if i_ < k_ - 1 else '')) for i_ in range(k_)]
+                    pad = ['0'] * (len(self.enum_slots(dst_e)) - k_)
+                    conv = '(' + ', '.join([str(cands[0])] + comps + pad) + ')'
+                    env[s[1][1]] = to[1]
+                    body, tb = self.stmts(rest, env, exp, result)
+                    return 'match %s with\n  | Except.error e_ => %s\n  | Except.ok %s => (\n  %s)' % (
+                        so, self.wrap_ret('(Except.error %s)' % conv, env), lean_ident(s[1][1]), body), tb
             if not (isinstance(to, tuple) and to[0] == 'option') or (isinstance(result, tuple) and result[0] == 'loop'):
                 raise TranslateError('unsupported use of `?`')
             env[s[1][1]] = to[1]
@@ -2462,6 +2551,27 @@ class Emitter:
             se, te = self.expr(s[3], env, self.ty(s[2]) if s[2] else None)
             if s[2]:
                 te = self.ty(s[2])
+            if s[3] == ('path', ['None']) and not s[2] and s[1][0] == 'pid':
+                # `let mut x = None;`: the type is that of the `Some(..)` assigned to it later
+                def find_some(node):
+                    if isinstance(node, list):
+                        for x in node:
+                            r = find_some(x)
+                            if r:
+                                return r
+                    elif isinstance(node, tuple) and node:
+                        if (node[0] == 'assign' and node[1] == ('path', [s[1][1]]) and node[2][0] == 'call'
+                                and node[2][1] == ['Some'] and node[2][2][0][0] == 'call' and len(node[2][2][0][1]) == 2
+                                and node[2][2][0][1][0] in getattr(self, 'enums', {})):
+                            return ('option', ('enum', node[2][2][0][1][0], []))
+                        for x in node:
+                            r = find_some(x)
+                            if r:
+                                return r
+                    return None
+                inf = find_some(rest)
+                if inf:
+                    te = inf
             self.bind(s[1], te, env)
             body, tb = self.stmts(rest, env, exp, result)
             if s[1][0] == 'ptuple' and all(q[0] == 'pid' for q in s[1][1]):
@@ -2803,7 +2913,8 @@ class Emitter:
             if isinstance(node, list):
                 return any(effectful(x) for x in node)
             if isinstance(node, tuple):
-                return bool(node) and (node[0] in ('assign', 'refmut') or any(effectful(x) for x in node))
+                return bool(node) and (node[0] in ('assign', 'refmut', 'return', 'continue', 'break')
+                                       or any(effectful(x) for x in node))
             return False
 
         def pat_expr(p):
@@ -2817,6 +2928,16 @@ class Emitter:
             last = st[-1][1]
             if last[0] == 'if' and last[3] is not None:
                 return ('block', st[:-1] + [('expr_nosemi', ('if', last[1], into(last[2], target), into(last[3], target)))])
+            if last[0] == 'match':
+                arms = []
+                for p_, b_ in last[2]:
+                    if b_[0] == 'block' and b_[1] and b_[1][-1][0] in ('return', 'continue', 'break'):
+                        arms.append((p_, b_))                         # the arm leaves: nothing is assigned
+                    elif b_[0] == 'block':
+                        arms.append((p_, into(b_, target)))
+                    else:
+                        arms.append((p_, ('block', [('assign', target, b_)])))
+                return ('block', st[:-1] + [('expr_nosemi', ('match', last[1], arms))])
             return ('block', st[:-1] + [('assign', target, last)])
 
         def prefix_of(e, v):
@@ -2844,6 +2965,52 @@ class Emitter:
             lst = list(lst)
             while lst:
                 st = lst.pop(0)
+                if (st[0] == 'let' and st[1][0] == 'pid' and isinstance(st[3], tuple) and st[3][:1] == ('mcall',)
+                        and st[3][2] == 'filter_map' and len(st[3][3]) == 1 and st[3][3][0][0] == 'closure'
+                        and len(st[3][3][0][1]) == 1 and st[3][1][:1] == ('mcall',) and st[3][1][2] == 'chars'):
+                    # `let d = s.chars().filter_map(|c| BODY);` — evaluated eagerly, in order: `d` starts empty; for every
+                    # character the closure body runs with `return None` = `continue`, `return Some(e)` / a final `Some(e)` =
+                    # `d.push(e)`. (The iterator is lazy in the source; see DESIGN §0.2 "eager filter_map" for why the
+                    # difference cannot be observed at the one call that consumes it.)
+                    dname, clo = st[1][1], st[3][3][0]
+                    cvar = clo[1][0]
+
+                    def fm(node, top):
+                        # rewrite the statements of the closure body
+                        if node[0] != 'block':
+                            node = ('block', [('tail', node)])
+                        res = []
+                        for q in node[1]:
+                            if q[0] == 'return' and q[1] == ('path', ['None']):
+                                res.append(('continue',))
+                            elif q[0] == 'return' and q[1] is not None and q[1][0] == 'call' and q[1][1] == ['Some']:
+                                res += [('expr', ('mcall', ('path', [dname]), 'push', [q[1][2][0]])), ('continue',)]
+                            elif q[0] == 'return':
+                                raise TranslateError('closure of filter_map returns something else than None / Some(..)')
+                            elif top and q[0] == 'tail' and q[1][0] == 'call' and q[1][1] == ['Some']:
+                                res.append(('expr', ('mcall', ('path', [dname]), 'push', [q[1][2][0]])))
+                            elif top and q[0] == 'tail' and q[1] == ('path', ['None']):
+                                pass
+                            elif top and q[0] == 'tail':
+                                raise TranslateError('closure of filter_map ends in something else than None / Some(..)')
+                            else:
+                                res.append(fmx(q))
+                        return ('block', res)
+
+                    def fmx(node):
+                        if isinstance(node, list):
+                            return [fmx(x) for x in node]
+                        if isinstance(node, tuple) and node:
+                            if node[0] == 'closure':
+                                return node
+                            if node[0] == 'block':
+                                return fm(node, False)
+                            return tuple(fmx(x) for x in node)
+                        return node
+                    body_ = fm(clo[2], True)
+                    lst = [('let', ('pid', dname), ('generic', 'Vec', ['u64']), ('nil',)),
+                           ('foreach', cvar, st[3][1][1], body_)] + lst
+                    continue
                 if st[0] in ('tail', 'return') and isinstance(st[1], tuple) and st[1] and st[1][0] == 'match' and len(st[1][2]) == 2 \
                         and all(p_[0] == 'mctor' and p_[1] in (['Ok'], ['Err']) and len(p_[2]) == 1
                                 and p_[2][0][0] in ('mbind', 'mwild') for p_, _ in st[1][2]) \
@@ -3233,6 +3400,7 @@ def translate(items, namespace='Ruint.Gen', imports=('Ruint.Gen.Prelude',), fns=
             fn = Parser(tokenize(text)).parse_fn()
             em = Emitter(fns, it.get('self_ty'), structs=it.get('structs'), gconsts=it.get('gconsts'), self_name=it.get('self_name'))
             em.uint_mode = it.get('uint') or False     # True: limb lists; 'value': a Uint is its numeric value
+            em.file_text = src
             em.externs = it.get('externs', {})
             em.call_alias = it.get('call_alias', {})
             em.panic_externs = it.get('panic_externs', ())
@@ -3242,7 +3410,8 @@ def translate(items, namespace='Ruint.Gen', imports=('Ruint.Gen.Prelude',), fns=
             # field-less / word-carrying enums declared in the same file (error types)
             em.enums = {}
             em.enum_fields = {}
-            for m_ in re.finditer(r'\benum\s+(\w+)\s*(?:<\s*(\w+)\s*>)?\s*\{(.*?)\n\}', re.sub(r'//[^\n]*', '', src), re.S):
+            esrc_ = src + ''.join('\n' + open(f_).read() for f_ in it.get('enum_files', []))   # error enums of other modules
+            for m_ in re.finditer(r'\benum\s+(\w+)\s*(?:<\s*(\w+)\s*>)?\s*\{(.*?)\n\}', re.sub(r'//[^\n]*', '', esrc_), re.S):
                 vs = []
                 fts = []
                 for v_ in re.finditer(r'(?:#\[[^\]]*\]\s*)*(\w+)\s*(\(([^)]*)\))?\s*,', m_.group(3)):
@@ -3725,6 +3894,15 @@ def der_items(repo):
             dict(u, fn='from_der_uint_slice', lean='der_from_der_uint_slice', key='der::from_der_uint_slice')]
 
 
+def str_items(repo):
+    """`Uint::from_str_radix` (src/string.rs), limb mode over the generated `from_base_be`: a `&str` is the sequence of its
+    characters (code points), `src.chars().filter_map(|c| …)` is evaluated eagerly (see `desugar`), `char` literal and range
+    patterns, `u64::from(c)`, the `err` latch, `?` with `From<BaseConvertError> for ParseError`, `err.map_or(Ok(value), Err)`"""
+    return [{'file': repo + '/src/string.rs', 'fn': 'from_str_radix', 'lean': 'uint_from_str_radix', 'key': 'Uint::from_str_radix',
+             'uint': True, 'self_ty': 'uint', 'group': 'str', 'externs': UINT_EXTERNS,
+             'enum_files': [repo + '/src/base_convert.rs']}]
+
+
 def macro_items(repo):
     """`pad_limbs` of the `uint!` proc macro (ruint-macro/src/lib.rs): trim / pad to the limb count and the range check"""
     return [{'file': repo + '/ruint-macro/src/lib.rs', 'fn': 'pad_limbs', 'lean': 'macro_pad_limbs', 'group': 'macro'}]
@@ -3803,7 +3981,8 @@ GROUPS = [('core', 'Words', ('Ruint.Gen.Prelude',)),
           ('intshift', 'WordsIntShift', ('Ruint.Gen.WordsUint',)),
           ('facade', 'WordsFacade', ('Ruint.Gen.WordsUint', 'Ruint.Gen.WordsUintDiv', 'Ruint.Gen.WordsUintMod', 'Ruint.Gen.WordsIntShift',
                                      'Ruint.Gen.WordsBytes', 'Ruint.Gen.WordsConv', 'Ruint.Gen.WordsConv2')),
-          ('der', 'WordsDer', ('Ruint.Gen.WordsBytes',))]
+          ('der', 'WordsDer', ('Ruint.Gen.WordsBytes',)),
+          ('str', 'WordsStr', ('Ruint.Gen.WordsRadix', 'Ruint.Gen.PreludeRes'))]
 
 
 def translate_all(repo):
@@ -3838,6 +4017,7 @@ def translate_all(repo):
     items += int_shift_items(repo)
     items += facade_items(repo)
     items += der_items(repo)
+    items += str_items(repo)
     try:
         items += lehmer_items(repo)
     except (OSError, IOError) as ex:
